@@ -28,11 +28,20 @@ import (
 //   sub             [2] s subscribes t/# QoS1 (mech drop only; otherwise subscribed from the start)
 //   ack             s acknowledges its oldest unacknowledged delivery
 //   reconn          [1] s's connection drops, s reconnects resuming the session (same CONNECT properties)
+//   reconn:<t>      [1] the same, but the new CONNECT announces Topic Alias Maximum <t> (every t smaller
+//        than the first connection's; "tams" in the arg: also the larger ones up to 2)
 // Receiver-side monitor (per connection of s, over every PUBLISH in wire order): alias table
 // alias -> topic. A PUBLISH with a topic and an alias binds; a PUBLISH with an empty topic must
 // carry an alias bound earlier on this connection, and that binding must be the topic the message
-// was published on (payload tags identify the message); alias in 1..tam; no alias at all when tam=0;
-// a PUBLISH with a topic must carry the right topic.
+// was published on (payload tags identify the message); alias in 1..tam of the current connection; no
+// alias at all when that is 0; a PUBLISH with a topic must carry the right topic.
+// Classification of an alarm (keys): a PUBLISH is "carried" when the message was offered to s at QoS>0
+// on an earlier connection (it is a stored message: resent, or released after the reconnect); the
+// pinned tree writes those verbatim (known findings ...previous-connection...), and their alias range
+// faults get the suffix :resent-from-previous-connection. A message published on a resumed connection
+// whose topic was never offered to s on this connection before (no earlier PUBLISH the broker could
+// have bound the alias with, delivered or not) and that still arrives alias-only can only come from an
+// alias table that outlived its connection: keys out:unresolvable:fresh-topic:... / out:misresolved:fresh-topic:...
 //
 // E2 scenario "c24in". First op cfg:<sam> (server Capabilities.TopicAliasMaximum 0,1,2). Client p
 // (v5, persistent) publishes retained messages  pa:<alias>:<topic>:<qos>  alias in {0 (none),1,2,3},
@@ -74,7 +83,8 @@ func c24OutRun(arg string) explore.HistFn {
 		}
 		cf := fields(hist[0])
 		tamN, _ := strconv.Atoi(cf[1])
-		tam := uint32(tamN)
+		tam0 := uint32(tamN) // Topic Alias Maximum of the first connection
+		tam := tam0          // ... of the current connection
 		mech := cf[2]
 		h := newH(world.Config{Caps: func(c *mqtt.Capabilities) {
 			if mech == "drop" {
@@ -108,6 +118,17 @@ func c24OutRun(arg string) explore.HistFn {
 		topicOf := map[string]string{} // payload tag -> topic published on
 		var outstanding []uint16       // unacknowledged QoS1 ids at s, oldest first
 		nPub, nSub, nRe := 0, 0, 0
+		pubAtRe := 0                       // messages published before the last reconnect (determines msgEpoch)
+		msgEpoch := map[string]int{}       // tag -> connection number (nRe) it was published on
+		offerEpoch := map[string]int{}     // tag -> connection number on which it was first offered to s
+		offered := map[string]bool{}       // topics offered to s on the current connection (before the current op)
+		retainedTag := map[string]string{} // mech drop: topic -> retained tag
+		offer := func(tag string) {
+			if _, ok := offerEpoch[tag]; !ok {
+				offerEpoch[tag] = nRe
+			}
+			offered[topicOf[tag]] = true
+		}
 
 		judge := func(pks []ref.Packet) {
 			for _, p := range pks {
@@ -123,16 +144,30 @@ func c24OutRun(arg string) explore.HistFn {
 				if p.Qos > 0 && !p.Dup {
 					outstanding = append(outstanding, p.PacketID)
 				}
+				oe, wasOffered := offerEpoch[tag]
+				carried := wasOffered && oe < nRe && p.Qos > 0              // a stored message of an earlier connection
+				fresh := nRe > 0 && msgEpoch[tag] == nRe && !offered[truth] // first offer of this topic on a later connection
+				if fresh {
+					count("out:fresh-topic-publishes-after-reconnect")
+				}
 				al, has := p.Props.Num(ref.PTopicAlias)
 				a := uint16(al)
 				if has {
 					count("out:aliased-publishes")
+					sfx := ""
+					if carried {
+						sfx = ":resent-from-previous-connection"
+					}
 					switch {
 					case tam == 0:
-						h.violate("out:alias-used-with-maximum-0", "s announced Topic Alias Maximum 0 but received %v", p)
+						h.violate("out:alias-used-with-maximum-0"+sfx, "s announced Topic Alias Maximum 0 on this connection but received %v", p)
 					case a == 0 || uint32(a) > tam:
-						h.violate("out:alias-exceeds-client-maximum", "s announced Topic Alias Maximum %d but received %v", tam, p)
+						h.violate("out:alias-exceeds-client-maximum"+sfx, "s announced Topic Alias Maximum %d on this connection but received %v", tam, p)
 					}
+				}
+				stale := "alias-never-assigned-on-this-connection"
+				if rx.old[a] == truth {
+					stale = "stale-alias-of-previous-connection"
 				}
 				switch {
 				case p.Topic != "":
@@ -151,10 +186,17 @@ func c24OutRun(arg string) explore.HistFn {
 					switch {
 					case ok && bound == truth:
 						count("out:alias-only-resolved")
+						if fresh {
+							count("out:alias-only-resolved-through-binding-of-a-resent-publish")
+						}
+					case ok && fresh:
+						h.violate("out:misresolved:fresh-topic:"+stale, "message %q, the first one on %q offered to s on this connection, arrives as alias %d which this connection bound to %q (previous connection: %q): %v", tag, truth, a, bound, rx.old[a], p)
 					case ok && rx.old[a] == truth:
 						h.violate("out:misresolved:alias-of-previous-connection-rebound", "message %q published on %q arrives as alias %d, bound to that topic only on a previous connection; this connection bound it to %q: %v", tag, truth, a, bound, p)
 					case ok:
 						h.violate("out:misresolved:alias-bound-to-other-topic", "message %q published on %q arrives as alias %d which this connection bound to %q: %v", tag, truth, a, bound, p)
+					case fresh:
+						h.violate("out:unresolvable:fresh-topic:"+stale, "message %q, the first one on %q offered to s on this connection, arrives with empty topic and alias %d, which no PUBLISH on this connection bound (receiver table %v, previous connection %v): %v", tag, truth, a, rx.table, rx.old, p)
 					default:
 						why := "unknown"
 						dropped := false
@@ -191,6 +233,7 @@ func c24OutRun(arg string) explore.HistFn {
 				tag := "m" + strconv.Itoa(nPub)
 				topic := c24Topic(mech, f[1])
 				topicOf[tag] = topic
+				msgEpoch[tag] = nRe
 				pk := pub(topic, tag, q, 0)
 				if q > 0 {
 					pk.PacketID = uint16(100 + nPub)
@@ -198,15 +241,31 @@ func c24OutRun(arg string) explore.HistFn {
 				pk.Retain = mech == "drop"
 				h.do("p", pk)
 				judge(h.poll("s"))
+				if mech != "drop" || nSub > 0 {
+					offer(tag)
+				}
+				if pk.Retain {
+					retainedTag[topic] = tag
+				}
 			case "sub":
 				nSub++
 				judge(h.do("s", sub(uint16(1+nSub), "t/#", 1)))
+				for _, tag := range retainedTag {
+					offer(tag)
+				}
 			case "ack":
 				id := outstanding[0]
 				outstanding = outstanding[1:]
 				judge(h.do("s", ref.Packet{Type: ref.PUBACK, PacketID: id}))
 			case "reconn":
 				nRe++
+				offered = map[string]bool{}
+				pubAtRe = nPub
+				if len(f) > 1 {
+					n, _ := strconv.Atoi(f[1])
+					tam = uint32(n)
+					count("out:reconnects-with-other-alias-maximum")
+				}
 				h.Cl["s"].Drop()
 				for a, t := range rx.table {
 					rx.old[a] = t
@@ -247,9 +306,21 @@ func c24OutRun(arg string) explore.HistFn {
 			}
 			if nRe < 1 {
 				next = append(next, "reconn")
+				for t := uint32(0); t <= 2; t++ {
+					if t < tam0 || (t > tam0 && strings.Contains(arg, "tams")) {
+						next = append(next, "reconn:"+strconv.Itoa(int(t)))
+					}
+				}
 			}
 		}
-		key := h.W.State() + fmt.Sprintf("|%s|%d|%d,%d,%d|%v|%v|%v", hist[0], len(hist), nPub, nSub, nRe, outstanding, rx.table, rx.old)
+		// oracle state that decides the key of a future alarm: topics offered on a resumed connection
+		// (only consulted there, and irrelevant when any alias at all is an alarm) and which messages
+		// were published before the reconnect
+		offKey := []string{}
+		if nRe > 0 && tam > 0 {
+			offKey = explore.SortedKeys(offered)
+		}
+		key := h.W.State() + fmt.Sprintf("|%s|%d|%d,%d,%d|%v|%v|%v|%d|%d|%v", hist[0], len(hist), nPub, nSub, nRe, outstanding, rx.table, rx.old, tam, pubAtRe, offKey)
 		res := h.finish(key, next)
 		res.Counters = counters
 		return res
@@ -415,10 +486,10 @@ func init() {
 		c.Rep.Assumption("drop/deferral/oversize are produced deterministically: MaximumClientWritesPending=1 with a retained burst, client Receive Maximum 1, client Maximum Packet Size 24")
 		c.Rep.Assumption("state = reflective dump of *Server plus receiver-side alias tables and pool counters")
 		if c.Quick() {
-			explore.RunBFS(c, "c24out", "n=5,p=3", 0, 45*time.Second)
+			explore.RunBFS(c, "c24out", "n=5,p=3", 0, 60*time.Second)
 			explore.RunBFS(c, "c24in", "n=3", 0, 25*time.Second)
 		} else {
-			explore.RunBFS(c, "c24out", "n=7,p=4,t3", 0, 7*time.Minute)
+			explore.RunBFS(c, "c24out", "n=7,p=4,t3,tams", 0, 7*time.Minute)
 			explore.RunBFS(c, "c24in", "n=4", 0, 4*time.Minute)
 		}
 	})
